@@ -144,6 +144,26 @@ AS = z3.ArraySort(I, z3.BoolSort())
 
 _fresh = [0]
 
+# Bounded-instance mode (counterexample SEARCH only, never used for proving): quantifiers over index ranges are expanded for ranges of at most B entries, the
+# side conditions "the range has at most B entries" are collected, unbounded quantifiers are instantiated on a small box.  A model of the resulting formula is a
+# candidate input; it counts only if the real block, run natively on it, violates the contract (vlib/vbounded.py).
+BOUNDED = {"B": None, "side": []}
+
+
+def q_range(kind, lo, hi, fn):
+    """forall / exists over the integer range [lo, hi) of fn(index) -> Bool, honouring the bounded-instance mode"""
+    lo, hi = as_int(lo), as_int(hi)
+    B = BOUNDED["B"]
+    if B is None:
+        v = fresh("q")
+        rng = z3.And(lo <= v, v < hi)
+        return z3.ForAll([v], z3.Implies(rng, fn(v))) if kind == "forall" else z3.Exists([v], z3.And(rng, fn(v)))
+    BOUNDED["side"].append(hi - lo <= B)
+    if kind == "forall":
+        return z3.And(*[z3.Implies(lo + t < hi, fn(lo + t)) for t in range(B)])
+    return z3.Or(*[z3.And(lo + t < hi, fn(lo + t)) for t in range(B)])
+
+
 
 def fresh(name, sort=I):
     _fresh[0] += 1
@@ -481,19 +501,15 @@ class ExprEval:
                 return v.length
             if isinstance(v, FilterSeq) and self.engine is not None:
                 # only what the code under contract observes of the length: 0 <= L <= len(base), and L == 0 iff no element passes the filter
-                L, q = fresh("flen"), fresh("q")
-                if v.base.parent is not None:
-                    none = z3.ForAll([q], z3.Implies(z3.And(v.base.lo <= q, q < v.base.lo + v.base.length), z3.Not(v.cond(as_int(v.base.parent.get(q))))))
-                else:
-                    none = z3.ForAll([q], z3.Implies(z3.And(0 <= q, q < v.base.length), z3.Not(v.cond(as_int(v.base.get(q))))))
-                # ... and, for comparisons with the small constants that occur in the code (len(..) == 1, == 2): L >= 2 iff two positions pass, L >= 3 iff three
+                L = fresh("flen")
                 par = v.base.parent if v.base.parent is not None else v.base
                 lo = v.base.lo if v.base.parent is not None else z3.IntVal(0)
                 hi = lo + v.base.length
-                a, b, c = fresh("p"), fresh("p"), fresh("p")
                 ok = lambda t: v.cond(as_int(par.get(t)))   # noqa: E731
-                two = z3.Exists([a, b], z3.And(lo <= a, a < b, b < hi, ok(a), ok(b)))
-                three = z3.Exists([a, b, c], z3.And(lo <= a, a < b, b < c, c < hi, ok(a), ok(b), ok(c)))
+                none = q_range("forall", lo, hi, lambda t: z3.Not(ok(t)))
+                # ... and, for comparisons with the small constants that occur in the code (len(..) == 1, == 2): L >= 2 iff two positions pass, L >= 3 iff three
+                two = q_range("exists", lo, hi, lambda a: z3.And(ok(a), q_range("exists", a + 1, hi, ok)))
+                three = q_range("exists", lo, hi, lambda a: z3.And(ok(a), q_range("exists", a + 1, hi, lambda b: z3.And(ok(b), q_range("exists", b + 1, hi, ok)))))
                 self.engine.curpath = self.engine.curpath + [L >= 0, L <= v.base.length, (L == 0) == none, (L >= 2) == two, (L >= 3) == three]
                 return L
             raise Unsupported("len of %s" % type(v).__name__)
@@ -544,6 +560,8 @@ class ExprEval:
                 if name == "forall":
                     return z3.And(*parts) if parts else z3.BoolVal(True)
                 return z3.Or(*parts) if parts else z3.BoolVal(False)
+            if BOUNDED["B"] is not None:
+                return q_range(name, lov, hiv, lambda t: as_bool(ExprEval(dict(self.env, **{lam.args.args[0].arg: t}), self.engine).ev(lam.body)))
             v = fresh(lam.args.args[0].arg)
             sub = ExprEval(dict(self.env, **{lam.args.args[0].arg: v}), self.engine)
             body = as_bool(sub.ev(lam.body))
@@ -551,6 +569,12 @@ class ExprEval:
             return z3.ForAll([v], z3.Implies(rng, body)) if name == "forall" else z3.Exists([v], z3.And(rng, body))
         if name == "forall_any":
             lam = n.args[0]
+            if BOUNDED["B"] is not None:
+                import itertools as _it
+
+                box = range(-1, BOUNDED["B"] + 3)
+                return z3.And(*[as_bool(ExprEval(dict(self.env, **{a.arg: z3.IntVal(t) for a, t in zip(lam.args.args, combo)}), self.engine).ev(lam.body))
+                                for combo in _it.product(box, repeat=len(lam.args.args))])
             vs = [fresh(a.arg) for a in lam.args.args]
             sub = ExprEval(dict(self.env, **{a.arg: v for a, v in zip(lam.args.args, vs)}), self.engine)
             return z3.ForAll(vs, as_bool(sub.ev(lam.body)))
@@ -705,6 +729,18 @@ class Engine:
         return self.obligations
 
     def declare(self, name, decl, path):
+        v = self._declare(name, decl, path)
+        if BOUNDED["B"] is not None:
+            cap = BOUNDED["B"] + 2
+            if isinstance(v, Arr1):
+                BOUNDED["side"].append(v.length <= cap)
+            if isinstance(v, Arr2):
+                BOUNDED["side"].extend([as_int(d) <= cap for d in v.shape])
+            if z3.is_expr(v) and z3.is_int(v):
+                BOUNDED["side"].extend([v >= -2, v <= cap])
+        return v
+
+    def _declare(self, name, decl, path):
         kind = decl[0]
         if kind == "int":
             return z3.Int(name)
